@@ -188,8 +188,13 @@ pub struct World {
     pub orphan_vamm: Option<Addr>,
     /// history model of funding (advanced by `run_history` only)
     pub fmodel: crate::oracle::FundingModel,
+    pub rmodel: crate::oracle::ReserveModel,
+    /// block time / height at which the deployment's contracts were instantiated
+    pub created_at: (u64, u64),
     /// an already resolved action a directed op wants executed as the very next step of the history
-    pub follow: Option<crate::hist::Act>,
+    pub follow: std::collections::VecDeque<crate::hist::Act>,
+    /// set by checks whose oracle tolerates coins attached to PayFunding (C03)
+    pub stray_funding_coins: bool,
 }
 
 fn c_cw20() -> Box<dyn Contract<Empty>> {
@@ -703,9 +708,13 @@ impl World {
             alien_vamm,
             orphan_vamm,
             fmodel: Default::default(),
-            follow: None,
+            rmodel: Default::default(),
+            created_at: (0, 0),
+            follow: Default::default(),
+            stray_funding_coins: false,
         };
         // a deployment is used from the block after its creation (see DESIGN C15)
+        w.created_at = (w.now(), w.height());
         w.next_block(15, 1);
         Ok(w)
     }
